@@ -166,6 +166,8 @@ static void vx_memcpy(void *dst, const void *src, size_t n)
 {
   VX_ASSERT(dst != src, "memcpy with overlapping ranges");
   VX_ASSERT(n <= function_storage_size, "memcpy beyond the embedded storage");
+  /* the type of the embedded callable is erased here: relocating it means relocating the whole buffer */
+  VX_ASSERT(n == function_storage_size || !slot_of(src)->cons, "an embedded callable is relocated with all of its bytes (the whole embedded storage)");
   *slot_of(dst) = *slot_of(src);
   memcpy(dst, src, n);
 }
